@@ -36,7 +36,7 @@ type workload struct {
 	feedback bool
 	backlog  int // packets queued up front (pacing interceptor driven exactly at its rate)
 	resend   int // percent of outgoing packets that repeat a recently sent sequence number (retransmission without RTX)
-	failW    bool // the next writer of local stream 1 fails every write
+	failW    bool // the next writer of local stream 1 fails every write, the one of stream 0 every 7th
 	rtcpHeavy bool // feedback read and application RTCP written on EVERY packet step (2 packets each)
 }
 
@@ -97,15 +97,14 @@ func measure() heapPoint {
 
 // counting writers: nothing is stored
 type nullRTP struct {
-	n    atomic.Int64
-	fail bool
+	n         atomic.Int64
+	failEvery int64 // > 0: every failEvery-th write fails (1 = all)
 }
 
 var errNextWriter = errors.New("verif: next writer fails")
 
 func (w *nullRTP) Write(h *rtp.Header, p []byte, _ interceptor.Attributes) (int, error) {
-	w.n.Add(1)
-	if w.fail {
+	if n := w.n.Add(1); w.failEvery > 0 && n%w.failEvery == 0 {
 		return 0, errNextWriter
 	}
 	return h.MarshalSize() + len(p), nil
@@ -152,7 +151,11 @@ func newDriver(c *vf.Case, b *zoo.Built, wl workload) *driver {
 	d.rtcpR = b.I.BindRTCPReader(d.rtcpIn)
 	for i := 0; i < 2; i++ {
 		lo := zoo.StreamOpts{SSRC: uint32(1000 * (i + 1)), PT: 96, ClockRate: 90000, Nack: true, TWCCID: twccID * (1 - i), RTX: i == 0, FEC: i == 0}
-		d.lw[i] = b.I.BindLocalStream(zoo.Info(lo), &nullRTP{fail: wl.failW && i == 1})
+		nw := &nullRTP{}
+		if wl.failW {
+			nw.failEvery = []int64{7, 1}[i] // stream 0: a transient error now and then; stream 1: always
+		}
+		d.lw[i] = b.I.BindLocalStream(zoo.Info(lo), nw)
 		ro := zoo.StreamOpts{SSRC: uint32(3000 + 1000*i), PT: 96, ClockRate: 90000, Nack: true, PLI: true, TWCCID: twccID * (1 - i)}
 		d.rf[i] = obs.NewFeed(clk)
 		d.rf[i].NoLog = true
